@@ -22,13 +22,14 @@ func init() {
 		NotDecided:  "TODO",
 		Assumptions: trustedBase,
 		Run: func(m *Model, s *Sink) {
-			m.RunScope(s, "R-SCOPE")       // a condition reads its variables through every enclosing scope, at any nesting depth
-			m.RunKeepParsed(s, "R-KEEP")   // every branch that was parsed is in the tree: an empty @elseif still stops the chain
-			m.RunPratt(s, "R-PRATT")       // the ternary nests to the right in its else part
-			m.RunKinds(s, "R-KINDS")       // what a Go value becomes decides its truth: a nil slice is an empty array, not nil
-			m.RunEvalState(s, "R-LOOP")    // evaluation keeps no flags between constructs
-			m.RunErrLayer(s, "R-ERRLAYER") // evaluation faults are raised by evaluation, not while parsing
-			m.RunDirMode(s, "R-DIRMODE")   // text right after a bare @else / @end / @break / @continue stays text, also when it starts with "("
+			m.RunScope(s, "R-SCOPE")        // a condition reads its variables through every enclosing scope, at any nesting depth
+			m.RunKeepParsed(s, "R-KEEP")    // every branch that was parsed is in the tree: an empty @elseif still stops the chain
+			m.RunPratt(s, "R-PRATT")        // the ternary nests to the right in its else part
+			m.RunKinds(s, "R-KINDS")        // what a Go value becomes decides its truth: a nil slice is an empty array, not nil
+			m.RunParserBuffers(s, "R-KEEP") // the branches a statement has collected are its own: no list of the parser is reused across nested statements
+			m.RunEvalState(s, "R-LOOP")     // evaluation keeps no flags between constructs
+			m.RunErrLayer(s, "R-ERRLAYER")  // evaluation faults are raised by evaluation, not while parsing
+			m.RunDirMode(s, "R-DIRMODE")    // text right after a bare @else / @end / @break / @continue stays text, also when it starts with "("
 			m.RunTruth(s, "R-TRUTH")
 			m.RunTruthUsers(s, "R-TRUTH")
 			m.RunEvalErr(s, "R-EVALERR") // a failing condition / body / sub-expression fails the render instead of being treated as a value
